@@ -136,7 +136,11 @@ func (c *Criteria) Add(criterion *Criterion) Criteria {
 			panic(fmt.Errorf("cannot add criterion '%v' - already exists in criteria: %v", *criterion, *c))
 		}
 	}
-	return append(*c, *criterion)
+	// never append in place: the receiver may share its backing array (spare capacity of a
+	// JSON-decoded slice) with the request or with another stage's criteria
+	result := make(Criteria, len(*c), len(*c)+1)
+	copy(result, *c)
+	return append(result, *criterion)
 }
 
 type WeightedCriterion struct {
